@@ -23,6 +23,22 @@ Theorem C17_finalize_expired_no_effect : forall w s ttl tip so c,
 Proof. exact finalize_expired. Qed.
 Print Assumptions C17_finalize_expired_no_effect.
 
+(** paying an invoice: an expired invoice slate is refused before the refresh, the selection
+    or any write. *)
+Theorem C17_process_invoice_expired_no_effect : forall w s ttl src p tip pr km,
+  ttl <> 0 -> ttl <= lookup (w_confh w) (w_active w) ->
+  process_invoice w s ttl src p tip pr km = (w, Err EExpired).
+Proof. exact process_invoice_expired. Qed.
+Print Assumptions C17_process_invoice_expired_no_effect.
+
+(** finalizing an invoice (issuer side, Invoice2 reply): refused when expired, no effect. *)
+Theorem C17_finalize_invoice_expired_no_effect : forall w s ttl c,
+  ttl <> 0 -> ttl <= lookup (w_confh w) (w_active w) ->
+  fst (step w (OpFinalizeInvoice s ttl c)) = w
+  /\ snd (step w (OpFinalizeInvoice s ttl c)) <> [0%Z].
+Proof. exact finalize_invoice_expired. Qed.
+Print Assumptions C17_finalize_invoice_expired_no_effect.
+
 (** a slate without a cutoff, or whose cutoff lies ahead, is never refused for that reason *)
 Theorem C17_not_expired_not_refused : forall w s a ttl d c,
   (ttl = 0 \/ lookup (w_confh w) (w_active w) < ttl) ->
@@ -55,7 +71,7 @@ Example C17_boundary :
   let w0 := fst (step (fst (step empty_wallet (OpCoinbase 0 1 None)))
                       (OpRefresh 0 false 5 [((0, 0), None, 1)] [])) in
   let wA := fst (step w0 (OpInitSend 1 None (mkParams 1000000000 false 5 1 500 1 true 0) false)) in
-  let wL := fst (step wA (OpLock 1 7 5)) in
+  let wL := fst (step wA (OpLock 1 7 5 true)) in
   expire wL 6 = wL
   /\ map sv (w_outs (expire wL 7)) = map sv (w_outs w0)
   /\ snd (step (fst (step wL (OpRefresh 0 false 7 [((0, 0), None, 1)] []))) (OpReceive 9 5 7 None true))
